@@ -392,14 +392,30 @@ def first_diff(a, b):
                 return (f'{nm} bit-field #{k} (first bit, last bit, number of bits)', a[f].get(k), b[f].get(k))
     return None
 
-def check_batch(ctx, corr, cases, tag, count_tag):
+def prepare_batch(ctx, cases, tag):
+    """sequential part (uses ctx.rng): the translation unit of a batch"""
+    src, info = make_program(cases, ctx.rng)
+    return (src, info, tag)
+
+def execute_batch(ctx, prep):
+    """parallel part: compile and run with gcc and chibicc"""
+    src, info, tag = prep
+    g = run_program(ctx, src, tag, 'g')
+    c = run_program(ctx, src, tag, 'c') if g[0] else (False, 'not run')
+    return g, c
+
+def check_batch(ctx, corr, cases, tag, count_tag, pre=None):
     """runs one translation unit of cases through chibicc, gcc, model and spec.  Returns list of problem dicts
     (kind = 'tie' | 'spec' | 'violation'), each with the case."""
     problems = []
     if not cases:
         return problems
-    src, info = make_program(cases, ctx.rng)
-    okg, outg = run_program(ctx, src, tag, 'g')
+    if pre is not None:
+        (src, info, _), ((okg, outg), pre_c) = pre
+    else:
+        src, info = make_program(cases, ctx.rng)
+        okg, outg = run_program(ctx, src, tag, 'g')
+        pre_c = None
     if not okg:
         # something gcc rejects slipped through the generator: find and drop (latitude), one by one
         if len(cases) == 1:
@@ -407,7 +423,7 @@ def check_batch(ctx, corr, cases, tag, count_tag):
             return problems
         mid = len(cases) // 2
         return check_batch(ctx, corr, cases[:mid], tag + 'a', count_tag) + check_batch(ctx, corr, cases[mid:], tag + 'b', count_tag)
-    okc, outc = run_program(ctx, src, tag, 'c')
+    okc, outc = pre_c if pre_c is not None else run_program(ctx, src, tag, 'c')
     if not okc:
         if len(cases) == 1:
             problems.append({'kind': 'violation', 'case': cases[0], 'decl': info[0][1],
@@ -771,6 +787,7 @@ def specifier_leg(ctx, corr):
                 corr.disagreements.append({'kind': 'declspec', 'input': ' '.join(s), 'model': m, 'impl': f'rejected: {err.strip()[-160:]}'})
     # gcc must reject what the spec rejects (validates the table): sample
     sample = inv[:100] + [inv[rng.randrange(len(inv))] for _ in range(60 if not ctx.thorough else 400)]
+    sample = [list(x) for x in dict.fromkeys(tuple(x) for x in sample)]     # one file per sequence (threads)
     def oneg(s):
         return compile_only(ctx, f'typedef {" ".join(s)} V;\n', 'invg' + hashlib.sha1(' '.join(s).encode()).hexdigest()[:12], 'g')[0]
     with ThreadPoolExecutor(max_workers=NPROC) as ex:
@@ -813,9 +830,37 @@ def stddef_leg(ctx, corr):
         corr.violations.append({'what': 'include/stddef.h type differs from the psABI (gcc 12)', 'input': '<stddef.h> size_t ptrdiff_t wchar_t max_align_t offsetof',
                                 'expected': og, 'got': bad})
 
+HUGE_ID = 'C08-huge-struct-overflow'
+def huge_leg(ctx, corr):
+    """aggregates of 256 MiB or more: struct_decl counts bits in an int (known finding; outside the Int model)"""
+    src = '#include <stddef.h>\nint printf(const char *, ...);\n'
+    src += 'struct H1 { char a[1<<28]; char b; };\nstruct H2 { char a[1<<27]; char b[1<<27]; int c; };\nstruct H3 { char a[(1<<28) - 8]; int b; char c; };\n'
+    src += 'int main(void) {\n'
+    src += '  printf("H1 %ld %ld %ld\\n", (long)sizeof(struct H1), (long)_Alignof(struct H1), (long)offsetof(struct H1, b));\n'
+    src += '  printf("H2 %ld %ld %ld\\n", (long)sizeof(struct H2), (long)_Alignof(struct H2), (long)offsetof(struct H2, c));\n'
+    src += '  printf("H3 %ld %ld %ld\\n", (long)sizeof(struct H3), (long)_Alignof(struct H3), (long)offsetof(struct H3, c));\n'
+    src += '  return 0; }\n'
+    okg, og = run_program(ctx, src, 'huge', 'g')
+    okc, oc = run_program(ctx, src, 'huge', 'c')
+    corr.evaluations += 1
+    corr.count('huge-struct')
+    if not okg:
+        raise RuntimeError('gcc failed on the huge-struct probe: ' + str(og))
+    if not okc or oc != og:
+        # H3 (just below 2^31 bits) must agree; H1/H2 are the listed witness and its neighbour
+        bad = [a for a, b in zip(oc, og) if a != b] if okc else [str(oc)]
+        v = {'what': 'sizeof/offsetof of an aggregate of 256 MiB or more differs from gcc (int overflow of the bit counter)',
+             'input': 'struct { char a[1<<28]; char b; }', 'expected': og, 'got': oc, 'known_id': HUGE_ID}
+        if okc and any(l.startswith('H3') for l in bad):
+            del v['known_id']
+            v['what'] = 'sizeof/offsetof of an aggregate below 256 MiB differs from gcc'
+        elif okc and any(l.startswith('H1') for l in bad):
+            corr.known_hits.append(HUGE_ID)
+        corr.violations.append(v)
+
 # -------------------------------------------------------------------------------------------- entry points
 
-def report(ctx, corr, problems, shrink_ok=True):
+def report(ctx, corr, problems, shrink_ok=True, exempt=()):
     seen_known = set()
     for p in problems:
         t = p['case']
@@ -825,7 +870,7 @@ def report(ctx, corr, problems, shrink_ok=True):
         elif p['kind'] == 'spec':
             corr.disagreements.append({'kind': 'layout spec vs gcc', 'case': s, 'decl': p['decl'], 'what': p['what'], 'gcc': p['gcc'], 'spec': p['spec']})
         else:
-            regs = sorted(regions_of(t))
+            regs = sorted(regions_of(t)) if s not in exempt else []   # repaired defects kept in the corpus are plain violations if they come back
             v = {'what': p['what'], 'input': 'typedef ' + p['decl'] + ';', 'case': s, 'expected': p['expected'], 'got': p['got']}
             if regs:
                 # inside a known-finding region: one entry for the listed witness, one for the first other declaration of the region;
@@ -907,25 +952,26 @@ def correspond(ctx, corr):
                  'distinct by canonical type description.')
     specifier_leg(ctx, corr)
     stddef_leg(ctx, corr)
+    huge_leg(ctx, corr)
     cases = gen_cases(ctx)
     B = 150
     problems = []
     batches = []
     for i in range(0, len(cases), B):
         batches.append(cases[i:i + B])
+    preps = [prepare_batch(ctx, [t for _, t in batch], f'b{bi}') for bi, batch in enumerate(batches)]
+    with ThreadPoolExecutor(max_workers=max(2, NPROC // 2)) as ex:
+        runs = list(ex.map(lambda pr: execute_batch(ctx, pr), preps))
     for bi, batch in enumerate(batches):
-        # group by tag only for counting; a batch mixes tags
-        by = {}
         trees = [t for _, t in batch]
-        tags = [g for g, _ in batch]
-        ps = check_batch(ctx, corr, trees, f'b{bi}', 'layout-case')
-        for g in tags:
+        ps = check_batch(ctx, corr, trees, f'b{bi}', 'layout-case', pre=(preps[bi], runs[bi]))
+        for g, _ in batch:
             corr.count('gen:' + g)
         problems += ps
         if sum(1 for p in ps if p['kind'] != 'violation' or not regions_of(p['case'])) > 20:
             break
     corr.distribution['layout-case'] = corr.distribution.get('layout-case', 0)
-    report(ctx, corr, problems)
+    report(ctx, corr, problems, exempt={ser(t) for g, t in cases if g == 'corpus'})
     # keep the evidence small: collapse known-region mismatches
     inreg = [v for v in corr.violations if v.get('known_id')]
     corr.extra['known_region_mismatches'] = len(inreg)
